@@ -80,6 +80,46 @@ CLAIMED = {
         "solver-enumerated error responses (CrossHair/z3) against the real decode path; native replay",
         "DESIGN.md section 5 C08",
     ),
+
+    "C09": (
+        "Unit level: CrossHair/z3 execute the real process_incoming_message / verify_authentication / decrypt_message / "
+        "validate_usm_message over all flag combinations with an ideal MAC (symbolic verdict) and prove that acceptance "
+        "implies the MAC was consulted and said yes and that a Report is never returned. End to end with the real HMAC: "
+        "a solver-chosen attacker action (octet substitution by position and value, truncation, flags byte, digest forgery, "
+        "foreign identity, plaintext under privacy credentials, Report for Response) on an authentic response must yield "
+        "an exception or exactly the authentic result; exhaustive within the stated sets.",
+        "Assumes HMAC-MD5-96 / HMAC-SHA-96 unforgeable. Trusted: reference USM engine (RFC 3414 A.3 vectors per run).",
+        "symbolic execution of the USM input path with an ideal-MAC stub (CrossHair/z3) + solver-enumerated attacker actions",
+        "DESIGN.md section 5 C09",
+    ),
+    "C10": (
+        "Password length, engine-id length, operation and response padding are solver variables (exhaustive within the "
+        "ranges); every emitted request must be accepted by an independent RFC 3412/3414 engine (flags, reportable, security "
+        "parameters, digest over the octets as sent) and every response it produces in minimal BER must be accepted; the "
+        "RFC 3414 A.2 expansion buffer is checked through the documented hash_implementation parameter.",
+        "Trusted: ref/usm.py. Known finding F08 (digest over a re-serialisation, TLV content length 127) suppressed by signature.",
+        "solver-enumerated configurations (CrossHair/z3) against an independent USM engine with the real hashes",
+        "DESIGN.md section 5 C10",
+    ),
+    "C11": (
+        "A recording keyed stream cipher in the plug-in namespace; operation, context name, hash and SET payload are solver "
+        "variables; each datagram is examined by the independent decoder: msgData = the plug-in's cipher-text of exactly the "
+        "scoped PDU, salt, key (privacy password localised with the authentication hash), boots/time, no plaintext on the "
+        "wire; responses decrypted with the parameters found in the message. A traced job keeps the SET payload octets "
+        "symbolic through apply_encryption and the plug-in's XOR.",
+        "Trusted: ref/usm.py, the harness cipher. The traced job replaces the authentication plug-in by a constant digest.",
+        "solver-enumerated configurations + symbolic payload through the encryption path (CrossHair/z3)",
+        "DESIGN.md section 5 C11",
+    ),
+    "C12": (
+        "One virtual clock drives the client's clocks and the reference engine's snmpEngineTime; the history (clock advance "
+        "before each operation, reboots, discovery reply variants) is solver-chosen and enumerated exhaustively within the "
+        "bound; a traced job carries symbolic boots / time / advance through the Report, the client's cache and arithmetic "
+        "and the next request, z3 proving the 150-second window inequality on the decoded security parameters.",
+        "Trusted: ref/usm.py window check. Known finding F19 (no re-synchronisation after an agent reboot) suppressed by signature.",
+        "solver-enumerated histories under virtual time + symbolic timing values through the real code (CrossHair/z3)",
+        "DESIGN.md section 5 C12",
+    ),
     "C17": (
         "Bounded symbolic execution (CrossHair/z3) of the real constructors, encoders and decoders proves the "
         "wrap/clamp, unsigned-decode and round-trip post-conditions over every path for all integers / all "
